@@ -9,7 +9,7 @@
 set -u
 V="$(cd "$(dirname "$0")/.." && pwd)"
 log="$(readlink -f "$1")"; shift
-MX=/tmp/mx
+MX="${MX_DIR:-/tmp/mx}"
 rm -rf "$MX/verif"; mkdir -p "$MX"
 if [ -d "$MX/repo" ]; then git -C /repo worktree remove --force "$MX/repo" 2>/dev/null; rm -rf "$MX/repo"; fi
 git -C /repo worktree add --detach "$MX/repo" HEAD >/dev/null 2>&1 || { echo "cannot create mirror worktree"; exit 2; }
